@@ -141,6 +141,13 @@ func (dec *Decoder) applyInverseTransforms(pixels []uint32) []uint32 {
 
 	for n := dec.nextTransform - 1; n >= 0; n-- {
 		t := &dec.transforms[n]
+		if t.Type == ColorIndexingTransform && t.Bits > 0 && n != dec.nextTransform-1 {
+			// From the second inverse transform on, rows aliases out. Expanding
+			// packed colour indices in place would overwrite packed input that
+			// has not been read yet, so write into the other buffer instead.
+			// (Each transform type occurs at most once, so pixels is free here.)
+			out = pixels
+		}
 		inverseTransform(t, 0, t.YSize, rows, out)
 		rows = out
 	}
